@@ -8,21 +8,75 @@ import (
 
 // AsyncEventBroker maintains a list of listeners interested in a specific type
 // of event.  Events are sent in parallel to all listeners, and no result is
-// returned.
+// returned.  Each listener receives its events one at a time, in the order they
+// were emitted.
 type AsyncEventBroker[E any] struct {
 	sync.RWMutex
-	listenerNames []string  // Ordered listener names.
-	listenerFuncs []func(E) // Ordered listener functions.
+	listenerNames []string         // Ordered listener names.
+	listenerFuncs []func(E)        // Ordered listener functions.
+	dispatcher    *asyncDispatcher // Shared by the brokers of a Host, created on demand otherwise.
 }
 
-// Emit sends the provided event to each registered listener in parallel.
+// Emit queues the provided event for each registered listener; it never waits
+// for a listener.
 func (eb *AsyncEventBroker[E]) Emit(event *E) {
-	eb.RLock()
-	defer eb.RUnlock()
+	eb.Lock()
+	defer eb.Unlock()
 
-	for _, l := range eb.listenerFuncs {
+	if eb.dispatcher == nil {
+		eb.dispatcher = &asyncDispatcher{}
+	}
+	for i, l := range eb.listenerFuncs {
 		// Events are copied to minimize the risk of mutation.
-		go l(*event)
+		l, e := l, *event
+		eb.dispatcher.enqueue(eb.listenerNames[i], func() { l(e) })
+	}
+}
+
+// asyncDispatcher runs the queued calls of each named listener one after the
+// other, in the order they were queued; different listeners run in parallel.
+type asyncDispatcher struct {
+	mu     sync.Mutex
+	queues map[string]*asyncQueue
+}
+
+type asyncQueue struct {
+	calls   []func()
+	running bool
+}
+
+func (d *asyncDispatcher) enqueue(name string, call func()) {
+	d.mu.Lock()
+	defer d.mu.Unlock()
+
+	if d.queues == nil {
+		d.queues = make(map[string]*asyncQueue)
+	}
+	q := d.queues[name]
+	if q == nil {
+		q = &asyncQueue{}
+		d.queues[name] = q
+	}
+	q.calls = append(q.calls, call)
+	if !q.running {
+		q.running = true
+		go d.run(q)
+	}
+}
+
+func (d *asyncDispatcher) run(q *asyncQueue) {
+	for {
+		d.mu.Lock()
+		if len(q.calls) == 0 {
+			q.running = false
+			d.mu.Unlock()
+			return
+		}
+		call := q.calls[0]
+		q.calls = q.calls[1:]
+		d.mu.Unlock()
+
+		call()
 	}
 }
 
